@@ -230,7 +230,10 @@ func genC03() error {
 						if tb == "FastMathFlag" {
 							guard = "if !hGenIsFP(x) {\n\t\t\t\treturn\n\t\t\t}\n\t\t\t"
 						}
-						step(fmt.Sprintf("hGenCap(len(hGenM_%s)) + 1", tb), fmt.Sprintf("%sif k == hGenCap(len(hGenM_%s)) {\n\t\t\t\tx.%s = []enum.%s{hGenM_%s[0], hGenM_%s[1]}\n\t\t\t\treturn\n\t\t\t}\n\t\t\tx.%s = []enum.%s{hGenM_%s[hGenPick(k, len(hGenM_%s))]}", guard, tb, fn, tb, tb, tb, fn, tb, tb, tb))
+						// single members; then: the first two members, every member paired
+						// with its successor, and all members together (a printer that lets
+						// one member stand for others is only seen on combinations)
+						step(fmt.Sprintf("hGenCap(len(hGenM_%s)) + 2 + len(hGenM_%s)", tb, tb), fmt.Sprintf("%sc := hGenCap(len(hGenM_%s))\n\t\t\tswitch {\n\t\t\tcase k == c:\n\t\t\t\tx.%s = []enum.%s{hGenM_%s[0], hGenM_%s[1]}\n\t\t\tcase k == c+1:\n\t\t\t\tx.%s = append([]enum.%s(nil), hGenM_%s...)\n\t\t\tcase k > c+1:\n\t\t\t\ti := k - c - 2\n\t\t\t\tx.%s = []enum.%s{hGenM_%s[i], hGenM_%s[(i+1)%%len(hGenM_%s)]}\n\t\t\tdefault:\n\t\t\t\tx.%s = []enum.%s{hGenM_%s[hGenPick(k, len(hGenM_%s))]}\n\t\t\t}", guard, tb, fn, tb, tb, tb, fn, tb, tb, fn, tb, tb, tb, tb, fn, tb, tb, tb))
 					} else {
 						varied = false
 					}
